@@ -76,12 +76,12 @@ CHECKS = {
    note='Trusted: R8: the cast `table as *const _ as u64` is replaced by an uninterpreted address function; R10: `!=` on Result<PhysFrame, FrameError> replaced by a helper with the derived-PartialEq contract; Cr3::read is a contracted callee here (verified under C16).'),
  'C01': dict(engine=E1, cat='other',
    tech='contract-based verification with Kani: proved walker/trait building blocks + bounded one-step harnesses (pre/post comparison against an independent hardware-style walker) on MappedPageTable with an arbitrary frame mapping',
-   text='Complete proofs: PageTableWalker::next_table/next_table_mut/create_next_table over one symbolic entry, all error conversions, Mapper::map_to parent-flag derivation, identity_map, translate_addr, PhysOffset::frame_to_pointer. Bounded stand-in: one-step harnesses per operation x page size x path shape from an arbitrary sparse pre-state over a pool of separate page tables, checked against an independent walker over the raw words; all histories follow by induction over steps within those bounds. OffsetPageTable by composition (arbitrary P + linear frame_to_pointer); RecursivePageTable only through C20.',
-   note='Bounded: pool of <= 7 tables, slots off the path zero (plus one symbolic background word), enumerated index tuples in the quick tier; clean_up not covered (C10). Trusted: Kani/CBMC; PageTable::zero replaced by its contract (proved under C08) inside the step harnesses.'),
+   text='Complete proofs: PageTableWalker::next_table/next_table_mut/create_next_table over one symbolic entry, all error conversions, Mapper::map_to parent-flag derivation, identity_map, translate_addr, PhysOffset::frame_to_pointer. Bounded stand-in: one-step harnesses per operation x page size x path shape from an arbitrary sparse pre-state over a pool of separate page tables, checked against an independent walker over the raw words; all histories follow by induction over steps within those bounds. OffsetPageTable by composition: MappedPageTable is checked for an arbitrary P, PhysOffset::frame_to_pointer == offset + frame is proved, and each of the 23 forwarding methods of offset_page_table.rs is verified by Verus to return exactly what the same-named inner method returns for the same arguments. RecursivePageTable: create_next_table (complete) and bounded 4 KiB step harnesses through a software-MMU stub of VirtAddr::as_mut_ptr.',
+   note='Bounded: pool of 7 separate tables with symbolic pairwise-distinct frame addresses, tree-shaped sparse pre-state with symbolic neighbour words, four concrete index tuples with pairwise distinct indices (one per harness; quick tier runs a representative subset), symbolic probe address; RecursivePageTable 2 MiB / 1 GiB operations and set_flags_pN_entry have no step harness; clean_up not covered (C10). Trusted: Kani/CBMC; PageTable::zero replaced by its contract (proved under C08) inside the step harnesses.'),
  'C02': dict(engine=E1, cat='other',
    tech='contract-based verification with Kani: error-shape obligations and unchanged-on-error frame conditions in the bounded one-step harnesses; create_next_table error paths proved completely',
    text='For each path shape the documented error is asserted exactly (PageAlreadyMapped, ParentEntryHugePage, PageNotMapped, FrameAllocationFailed at each of the up to three allocation points) and on every Err the independent walker\'s answer for the target and a symbolic probe is unchanged and only parent flags were added. create_next_table\'s error paths are complete proofs over a symbolic entry.',
-   note='Bounded as C01. One genuine defect found and fixed (failed map_to widened a huge page\'s flags); the 2 MiB / 1 GiB update_flags / translate_page findings are listed in known_findings.txt if open.'),
+   note='Bounded as C01. One genuine defect found and fixed (failed map_to widened a huge page\'s flags); eleven obligations (2 MiB / 1 GiB update_flags and translate_page on table-pointing entries, set_flags_p3/p2_entry on huge leaves, recursive 4 KiB update_flags / translate_page through huge parents) are OPEN known findings (known_findings.txt): the check prints KNOWN-FINDING for them and exits 0.'),
  'C09': dict(engine=E1, cat='other',
    tech='contract-based verification with Kani: word-by-word frame condition over the whole table pool through one symbolic (table, slot), allocator call counting, zero-before-use ghost flag, pointer checks for any access outside the pool',
    text='In every step harness all pool tables are compared before/after through one symbolic (table, slot) pair so only the dictated slots may change; data frames are not backed by objects, so any access outside page-table memory is a Kani pointer failure; allocator calls are counted (<= 1/2/3, none when tables exist, none in other operations); a fresh table is zeroed before its first entry is written. create_next_table: allocation iff unused, zeroed before return (complete proof).',
